@@ -5,7 +5,7 @@
 //! a different sort plan.
 use serde_json::{json, Value};
 use std::collections::HashSet;
-use vcore::{Ctx, Local, Rng};
+use vcore::{idx, Ctx, Local, Rng};
 
 #[path = "../shared/paging.rs"]
 mod paging;
@@ -248,6 +248,30 @@ fn main() {
         return;
       }
     };
+    // "old writer" mode: a long-lived writer handle is created now; somebody else then changes the
+    // manifest (compaction, or another handle's commit) before the cursors are issued; later that OLD
+    // handle commits. The index generation the cursors are bound to must still move on.
+    let mut old_writer = if rng.chance(0.4) { index.writer().ok() } else { None };
+    let extra_docs = 0usize;
+    if old_writer.is_some() {
+      let segs = index.reader().map(|r| r.manifest.segments.len()).unwrap_or(0);
+      let intervening: anyhow::Result<()> = if segs >= 2 && rng.chance(0.6) {
+        l.count("old_writer_mode[compaction-in-between]", 1);
+        index.compact()
+      } else {
+        // content-neutral for the model: another handle re-adds one live document unchanged
+        l.count("old_writer_mode[other-handle-commit-in-between]", 1);
+        let lv = corpus.live();
+        match lv.values().nth(rng.usize(lv.len().max(1))) {
+          Some(d) => paging::apply_commit(&index, &[paging::Op::Add(d.clone())]),
+          None => paging::apply_commit(&index, &[]),
+        }
+      };
+      if let Err(e) = intervening {
+        l.inconclusive(format!("intervening change failed: {e:#}"));
+        return;
+      }
+    }
     let reader = match index.reader() {
       Ok(r) => r,
       Err(e) => {
@@ -266,7 +290,7 @@ fn main() {
       l.count("indexes_with_tombstones", 1);
     }
     let corpus_fp = vcore::ctx::fp(&corpus.to_json().to_string());
-    let big = live.len() + 10;
+    let big = live.len() + extra_docs + 10;
     let n_walks = if quick { 12 } else { 20 };
     let mut recs: Vec<WalkRec> = Vec::new();
     for _ in 0..n_walks {
@@ -525,6 +549,9 @@ fn main() {
     if kind == "compact" && n_segments < 2 {
       kind = "commit-add";
     }
+    if old_writer.is_some() && rng.chance(0.8) {
+      kind = "old-writer-commit";
+    }
     let live_ids: Vec<String> = live.keys().cloned().collect();
     let mut deleted: Vec<String> = Vec::new();
     let change: anyhow::Result<()> = match kind {
@@ -534,6 +561,14 @@ fn main() {
         paging::apply_commit(&index, &ops)
       }
       "compact" => index.compact(),
+      "old-writer-commit" => (|| -> anyhow::Result<()> {
+        let w = old_writer.as_mut().unwrap();
+        for i in 0..rng.urange(1, 3) {
+          w.add_document(&idx::doc(&paging::gen_doc(rng, &format!("old{i}"), &["rust search".to_string(), "engine".to_string()], false)))?;
+        }
+        w.commit()?;
+        Ok(())
+      })(),
       _ => {
         let k = rng.urange(1, 3).min(live_ids.len());
         for i in rng.subset(live_ids.len(), k) {
